@@ -101,6 +101,44 @@ def cand_line(sd, ni, i, obs, greedy, result):
     return "CAND " + " ".join(head) + " ; " + " ".join(ni.sp(a) for a in avoid) + " ; " + " ".join(trans)
 
 
+def nfvs_cert(n, deps: str, fixed: set, nfvs: set):
+    """rank + two-colouring certificate for `NFVSCERT` (untrusted; Lean checks it): strongly connected
+    components of the signed dependency graph without the feedback vertex set, ranked along the
+    condensation, coloured by breadth-first search"""
+    import networkx as nx
+
+    g = nx.DiGraph()
+    keep = [v for v in range(n) if v not in fixed and v not in nfvs]
+    g.add_nodes_from(keep)
+    signs = {}
+    for e in deps.split():
+        uv, sg = e.split(":")
+        u, v = map(int, uv.split(">"))
+        if u in g and v in g:
+            g.add_edge(u, v)
+            signs.setdefault((u, v), set()).add(sg)
+    cond = nx.condensation(g)
+    order = list(nx.topological_sort(cond))
+    rank = [0] * n
+    col = [0] * n
+    for pos, c in enumerate(order):
+        members = cond.nodes[c]["members"]
+        for v in members:
+            rank[v] = len(order) - pos
+        start = min(members)
+        seen = {start: 0}
+        todo = [start]
+        while todo:
+            u = todo.pop()
+            for v in g.successors(u):
+                if v in members and v not in seen:
+                    seen[v] = seen[u] ^ (1 if "-" in signs[(u, v)] else 0)
+                    todo.append(v)
+        for v, c_ in seen.items():
+            col[v] = c_
+    return ",".join(map(str, rank)), "".join(map(str, col))
+
+
 def run_case(case):
     if "batch" in case:
         out = {"fails": [], "diffs": [], "tags": set(), "nontrivial": False, "sig": common.case_hash(case)}
@@ -127,6 +165,7 @@ def run_case(case):
     orc = Oracle(ni)
     res = []
     tags = set()
+    nfvs_q = []
     for q, (a, greedy, sim) in enumerate(case["queries"]):
         i = a % len(sd)
         d = sd.node_data(i)
@@ -137,6 +176,10 @@ def run_case(case):
         d["attractor_seeds"] = None
         d["attractor_sets"] = None
         obs = node_obs(sd, i)
+        # E5: the negative feedback vertex set the computation relies on, checked by Lean against a certificate
+        if len(obs["space"]) < ni.n:
+            nf = sd.node_percolated_nfvs(i, compute=True)
+            nfvs_q.append((q, ni.sp(obs["space"]), [ni.idx[v] for v in nf], {ni.idx[v] for v in obs["space"]}))
         del _calls[:]
         del _heur[:]
         try:
@@ -157,9 +200,22 @@ def run_case(case):
         res.append((q, obs, c, greedy, sim))
     for q, (line, _, _) in model_lines.items():
         orc.ask(("cand", q), line)
+    for q, spx, nf, fixed in nfvs_q:
+        orc.ask(("deps", q), f"DEPS {spx}")
     orc.run()
     fails = []
     diffs = []
+    if nfvs_q:
+        o2 = Oracle(ni)
+        for q, spx, nf, fixed in nfvs_q:
+            ranks, cols = nfvs_cert(ni.n, orc.get(("deps", q)), fixed, set(nf))
+            o2.ask(q, f"NFVSCERT {spx} {','.join(map(str, nf)) or '-'} {ranks} {cols}")
+        o2.run()
+        for q, spx, nf, fixed in nfvs_q:
+            if o2.get(q) != "OK":
+                fails.append({"kind": "nfvs-not-a-negative-feedback-vertex-set", "sig": {},
+                              "detail": f"node space {spx}: node_percolated_nfvs = {[ni.names[v] for v in nf]} leaves a negative cycle ({o2.get(q)}; dependencies {orc.get(('deps', q))})"})
+        tags.add("nfvs-cert")
     for q, (line, real_calls, real_res) in model_lines.items():
         rep = orc.get(("cand", q))
         if rep.startswith(("ORACLE-BAD", "HEUR-DIFF", "bad")):
